@@ -80,7 +80,8 @@ func runC06(env *lib.Env, rep *lib.Report) {
 	}
 	type tchoice struct{ table, alias string }
 	firsts := []tchoice{{"t", ""}, {"t", "x"}}
-	seconds := []tchoice{{"u", ""}, {"u", "y"}, {"t", "t2"}, {"v", ""}}
+	// (aliases that differ from another table id only in letter case are still different ids)
+	seconds := []tchoice{{"u", ""}, {"u", "y"}, {"t", "t2"}, {"v", ""}, {"t", "X"}, {"u", "T"}}
 	thirds := []tchoice{{"v", ""}, {"v", "z"}, {"u", "u2"}, {"t", "t3"}}
 	id := func(c tchoice) string {
 		if c.alias != "" {
